@@ -13,6 +13,10 @@ import (
 	"golang.org/x/tools/go/ssa"
 )
 
+// trivialObls counts, per function, the obligations whose goal folded to true while it was built
+// (a store exactly at a declared region, say): generated and discharged by construction.
+var trivialObls = map[string]int{}
+
 type Engine struct {
 	alt     map[string]*Program // programs loaded under additional build tags
 	P       *Program
@@ -167,6 +171,7 @@ func (e *Engine) verifyFunctionIn(P *Program, fn *ssa.Function, c *Contract, pro
 			return nil, nil, err
 		}
 		obls = append(obls, vc.obls...)
+		trivialObls[c.Key] += vc.counters["trivial"]
 		for n := range vc.notes {
 			notes[n] = true
 		}
